@@ -3,6 +3,21 @@
 import json, subprocess, os
 
 CHECKS = {
+ "C08": dict(level="fault_enumeration", engine="simdisk",
+   technique="exhaustive fault-plan enumeration (I/O call index x failure kind x burst length x writer timing) over histories selected from an explicit-state BFS, executed on the real implementation under the deadlock-detecting scheduler",
+   text="For one representative history per I/O shape (including open-time resize, rollback after flush, checkpointing commits): every I/O call issued during the history's last transaction, every failure kind applicable to it (error before effect, short write then error, failing sync/truncate/size/mmap/munmap), burst lengths 1-3, with the background writer lazy or eager. Oracle: no panic, no deadlock (exact, by the scheduler), a commit whose I/O failed returns an error, in-process readers keep seeing exactly the last successfully committed model state, after the failures stop a new transaction commits on the same File, and after close/reopen the file shows that state or - only if the header was written and only the final sync failed - the complete state of that commit.",
+   note="Faults are injected at the vfs boundary; reads are not failed; failure kinds as listed.",
+   ref="5/C08"),
+ "C09": dict(level="model_checking", engine="sched+vsync",
+   technique="stateless enumeration of all thread schedules up to a preemption bound on the real lock/commit code under a controlled scheduler, plus happens-before race detection inside those schedules",
+   text="The library is rebuilt with package sync replaced by scheduler-visible shims; reader/writer/closer scenarios (1-2 writers ending in commit, rollback, close or failed commit; 0-2 readers; File.Close racing with them; files opened plainly or through open-time grow/shrink/unbound maintenance transactions) are executed under every schedule with at most the stated number of preemptions. Oracle: at most one active write transaction, readers not excluded by an open write transaction, no deadlock (exact), lock state idle and Begin/BeginReadonly/Close completing at the end. The same schedules are run in a -race build in which the scheduler's hand-offs are hidden from the detector and the program's own synchronisation is reported, so a data race is detected per execution.",
+   note="Sequentially consistent interleavings at synchronisation/I/O granularity; preemption-bounded; unsynchronised accesses are caught by the race pass, not by weak-memory exploration.",
+   ref="5/C09"),
+ "C16": dict(level="fault_enumeration", engine="simdisk",
+   technique="exhaustive enumeration of structured header corruptions over committed images from an explicit-state BFS",
+   text="For the cleanly closed image of every distinct logical state reached by a commit or reopen in a BFS: all 672 single-bit flips of each header, three families of byte-prefix tears at every offset, zero/0xFF/0xDB fill, every field replaced by 0/1/max/other slot's value; for every fourth image also both headers damaged (cross product of a reduced set) and crafted valid txid pairs around wrap-around followed by real commits. Oracle: one header damaged: Open succeeds and exposes exactly the model state of the intact header's txid; both damaged: Open returns an error and releases the lock; never a panic.",
+   note="Random multi-byte damage is replaced by complete structured families; FNV-32a collisions of multi-byte damage are out of reach of enumeration.",
+   ref="5/C16"),
  "C01": dict(level="fault_enumeration", engine="simdisk",
    technique="exhaustive crash-image enumeration (I/O boundaries x lost-write subsets x header tear offsets) over histories selected from an explicit-state BFS of the real implementation",
    text="For one representative history per distinct I/O shape found by a BFS over transaction histories: every I/O boundary of the last operation, every subset of the un-synced page writes/truncates (all 2^p up to a cap), and every byte-prefix tear of a pending header write. Each image is reopened through the normal open path; the recovered header txid must be the last successful commit (or the commit in flight), root and every live page must match that transaction's model state byte for byte, and two probe transactions (allocate/write/commit; overwrite/free/allocate/commit/reopen) must leave every other recovered page unchanged.",
